@@ -42,6 +42,22 @@ let c06_case (s : sess) (r : rng) (d : bool) (p : spos) =
     let xfen = String.concat "" (List.filter_map (fun (o, c) -> match o with Some _ -> Some c | None -> None)
                                    [ (p.s_wk, "K"); (p.s_wq, "Q"); (p.s_bk, "k"); (p.s_bq, "q") ]) in
     if xfen <> "" then add xfen;
+    (* MIXED fields: some rights by file letter, others by K/Q/k/q — what X-FEN actually prescribes when only some of the
+       castling rooks are not the outermost ones *)
+    if chars <> [] then
+      for _ = 1 to 3 do
+        let kfile s_ = match find_king p.s_board s_ with Some k -> int_of_n k mod 8 | None -> 4 in
+        add (String.concat "" (List.map (fun c ->
+            let ch = c.[0] in
+            let white = ch >= 'A' && ch <= 'H' in
+            let file = Char.code (Char.lowercase_ascii ch) - 97 in
+            if chance r 1 2 then c
+            else begin
+              let kingside = file > kfile (if white then White else Black) in
+              let l = if kingside then "k" else "q" in
+              if white then String.uppercase_ascii l else l
+            end) chars))
+      done;
     add ((if cf = "-" then "" else cf) ^ String.make 1 (Char.chr (65 + rand r 8)));
     add (String.make 1 (Char.chr (97 + rand r 8)) ^ (if cf = "-" then "" else cf));
     add "KQkq"
@@ -57,25 +73,6 @@ let c06_case (s : sess) (r : rng) (d : bool) (p : spos) =
         ignore (obs_fen s);
         bump "fen_spellings"
       | _ -> bump "fen_spelling_skipped_not_legal_consistent") !variants
-
-(* placement fields of maximal length: 32 men, no two adjacent empty squares in any rank (71 characters) *)
-let long_placement (r : rng) : spos option =
-  let a = empty_board () in
-  let men s = [ (s, King); (s, Queen); (s, Rook); (s, Rook); (s, Bishop); (s, Bishop); (s, Knight); (s, Knight) ] @ List.init 8 (fun _ -> (s, Pawn)) in
-  (* squares: alternate occupied / empty, the phase chosen per rank *)
-  let sqs = List.concat (List.init 8 (fun rk -> let ph = rand r 2 in List.init 4 (fun i -> rk * 8 + 2 * i + ph))) in
-  let pawn_ok q = q / 8 >= 1 && q / 8 <= 6 in
-  let rec place men sqs = match men with
-    | [] -> true
-    | (s, pc) :: rest ->
-      let cands = List.filter (fun q -> a.(q) = None && (pc <> Pawn || pawn_ok q)) sqs in
-      if cands = [] then false else begin a.(pick r cands) <- Some (s, pc); place rest sqs end in
-  (* pawns first (they cannot go everywhere) *)
-  let order = List.filter (fun (_, pc) -> pc = Pawn) (men White @ men Black) @ List.filter (fun (_, pc) -> pc <> Pawn) (men White @ men Black) in
-  if place order sqs then begin
-    let p = spos_of_array a (if chance r 1 2 then White else Black) ~half:(rand r 50) ~full:(1 + rand r 90) () in
-    if lc true p then Some p else None
-  end else None
 
 let run_c06 (s : sess) (r : rng) corpus quick nshards budget run_case =
   let n = (if budget > 0 then budget else if quick then 4000 else 150000) / nshards in
@@ -117,6 +114,30 @@ let run_c06 (s : sess) (r : rng) corpus quick nshards budget run_case =
 (* ----- C07 object reuse ----- *)
 let run_c07_reuse (s : sess) (r : rng) corpus quick nshards budget run_case =
   let n = (if budget > 0 then budget else if quick then 1500 else 60000) / nshards in
+  (* the keyword "startpos" on an object that already holds the initial placement — with other counters, in either mode,
+     with and without a history — and the same FEN string given twice *)
+  List.iter (fun (d1, f1, plies, d2) ->
+      run_case s (fun () ->
+          op_new s d1 f1;
+          for _ = 1 to plies do match spec_moves (sp_of s) with [] -> () | l -> op_make s (pick r l) done;
+          for _ = 1 to plies do ignore (op_undo s ~null:false) done;
+          op_setfen s d2 "startpos";
+          let reused = obs_state s in
+          let h1 = send s.d "hist" and m1 = send s.d "moves" and fe1 = send s.d "fen" in
+          op_new s d2 "startpos";
+          let fresh = obs_state s in
+          let h2 = send s.d "hist" and m2 = send s.d "moves" and fe2 = send s.d "fen" in
+          if not (same_model_state reused.cp fresh.cp) || h1 <> h2 || m1 <> m2 || fe1 <> fe2 then
+            fail_spec "set_fen(\"startpos\") on an object holding %S differs from a fresh Position" f1;
+          bump "reuse_startpos_keyword"))
+    (List.concat_map (fun (d1, f1) -> [ (d1, f1, 0, false); (d1, f1, 0, true); (d1, f1, 2, false) ])
+       [ (false, "rnbqkbnr/pppppppp/8/8/8/8/PPPPPPPP/RNBQKBNR w KQkq - 0 0");
+         (false, "rnbqkbnr/pppppppp/8/8/8/8/PPPPPPPP/RNBQKBNR w KQkq - 100 53");
+         (true, "rnbqkbnr/pppppppp/8/8/8/8/PPPPPPPP/RNBQKBNR w HAha - 7 1");
+         (true, "rnbqkbnr/pppppppp/8/8/8/8/PPPPPPPP/RNBQKBNR w HAha - 0 1");
+         (false, "rnbqkbnr/pppppppp/8/8/8/8/PPPPPPPP/RNBQKBNR w KQkq - 0 1");
+         (false, "rnbqkbnr/pppppppp/8/8/8/8/PPPPPPPP/RNBQKBNR w Qkq - 0 1");
+         (false, "rnbqkbnr/pppppppp/8/8/8/8/PPPPPPPP/RNBQKBNR b KQkq - 3 9") ]);
   let starts = Array.of_list (start_positions r corpus (max 2 n)) in
   for i = 0 to Array.length starts - 2 do
     let d1, p1, _ = starts.(i) and d2, p2, _ = starts.(i + 1) in
